@@ -148,6 +148,7 @@ class EngineChecks:
         self.ctx = ctx
         self.reached = {}     # id(node) -> [reached, failed]
         self.int_ok = {}      # id(node) -> (all_digits, single_digit, witness)
+        self.int_prov = {}    # id(node) -> {(pattern, group)}
         self.ran = set()
         self.errors = {}
 
@@ -171,6 +172,8 @@ class EngineChecks:
             c[0] += r
             c[1] += fl
         if h is not None:
+            for nid, pv in getattr(h, "int_prov", {}).items():
+                self.int_prov.setdefault(nid, set()).update(pv)
             for node, arg, st, ok_all, w, fn in h.int_sites:
                 prev = self.int_ok.get(id(node))
                 single = False
@@ -325,6 +328,9 @@ def report(ctx, rep, E, ec, occ, allowed, pid, known_recursion=()):
         n_sites += 1
         key = site_key(s, occ)
         short = "%s/%s/%s%s" % (key[0], key[1], alpha(key[2], s.func), ("#%d" % key[3]) if len(key) > 3 else "")
+        if s.kind == "int" and ec.int_prov.get(id(s.node)):
+            # semantic key: which regex group the unbounded digit string is (independent of helper extraction / renaming)
+            short = "unbounded-digits/" + "+".join("%s#%d" % pv for pv in sorted(ec.int_prov[id(s.node)]))
         if s.discharge is not None:
             rep.ob("X-" + s.kind, True, s.node, s.func, construct=s.text, how=s.discharge, key=short, nontrivial=True)
             continue
@@ -462,6 +468,43 @@ def check_inc_loop(ctx, f, node):
     return None
 
 
+def check_div_loop(ctx, f, node):
+    """T-div by the engine: on every back edge the counter is head // b with a constant b >= 2, and the loop runs while it is non-zero"""
+    class H(Hooks):
+        def __init__(self):
+            self.loop = None
+
+        def on_loop(self, eng, fr, n, syms, entered, back, exits, breaks):
+            if fr.depth == 0 and n is node:
+                self.loop = (syms, back, entered)
+    h = H()
+    eng = Engine(ctx, h)
+    try:
+        eng.run_function(f)
+    except AnalysisError:
+        return None
+    if h.loop is None:
+        return None
+    syms, back, entered = h.loop
+    for nm in [n.id for n in ast.walk(node.test) if isinstance(n, ast.Name) and n.id in syms]:
+        head = Lin.var(syms[nm])
+        ok = bool(back)
+        for b in back:
+            v = b.env.get(nm)
+            lv = v.lin if isinstance(v, Num) else None
+            good = False
+            if lv is not None:
+                for c in range(2, 65):
+                    if (lv - Lin.var(("div", head.key(), c))).is_const() and (lv - Lin.var(("div", head.key(), c))).k == 0:
+                        good = True
+            ok = ok and good
+        # inside the loop the counter is >= 1 (so the quotient is strictly smaller and >= 0)
+        ok = ok and all(s.entails(ge(head, 1)) for s in entered)
+        if ok:
+            return nm
+    return None
+
+
 def check_termination(ctx, rep, E, ec):
     n = 0
     seen = set()
@@ -478,6 +521,8 @@ def check_termination(ctx, rep, E, ec):
             how = None
             if tmpl is not None:
                 how = "variant template %s" % tmpl
+            elif check_div_loop(ctx, f, node) is not None:
+                how = "variant template T-div: the counter is floor-divided by a constant >= 2 on every back edge and is >= 1 inside the loop"
             else:
                 hk = (f.name, tt)
                 if hk in HAND_LOOPS:
